@@ -397,6 +397,10 @@ class Tr:
             d = self.expr(args[0]) if name == "unwrap_or" else "0"
             return (f"(match {self.expr(recv[1])} with | some {clo[1][0][1]} => {self.expr(clo[2])} "
                     f"| none => {d})")
+        if name == "map_or" and len(args) == 2 and args[1][0] == "closure" and len(args[1][1]) == 1 \
+                and args[1][1][0][0] == "pvar":
+            return (f"(match {self.expr(recv)} with | some {args[1][1][0][1]} => {self.expr(args[1][2])} "
+                    f"| none => {self.expr(args[0])})")
         if name == "unwrap_or" and recv[0] == "mcall" and recv[2] == "try_into" and \
                 args[0] == ("path", ["u32", "MAX"]):
             return f"(min {self.expr(recv[1])} 4294967295)"       # u64 -> u32, clamped
@@ -605,6 +609,37 @@ SITES = [
      r"calls \+= 1; should_sync = (?P<e>[^;]+);"),
     ("Loops", "sync_evict_needed", "sync/base_cache.rs", "sync", 0, "expr",
      [("weights_to_evict", N)], B, "nat", [], r"if (?P<e>weights_to_evict > 0) \{"),
+    # how the lookups combine the two expiry tests; when an applied read moves the idle timer
+    ("Lookup", "sync_get_filtered", "sync/base_cache.rs", "get_with_hash", 0, "expr",
+     [("wo", B), ("ao", B)], B, "nat",
+     [("is_expired_entry_wo(ttl, va, arc_entry, now)", "wo"), ("is_expired_entry_ao(tti, va, arc_entry, now)", "ao")],
+     r"let arc_entry = &\*entry; if (?P<e>[^{]+?) \{"),
+    ("Lookup", "sync_contains_visible", "sync/base_cache.rs", "contains_key", 0, "expr",
+     [("wo", B), ("ao", B)], B, "nat",
+     [("is_expired_entry_wo(ttl, va, entry, now)", "wo"), ("is_expired_entry_ao(tti, va, entry, now)", "ao")],
+     r"let entry = &\*entry; (?P<e>[^}]+?) \}"),
+    ("Lookup", "sync_iter_filtered", "sync/base_cache.rs", "is_expired_entry", 0, "expr",
+     [("wo", B), ("ao", B)], B, "nat",
+     [("is_expired_entry_wo(ttl, va, entry, now)", "wo"), ("is_expired_entry_ao(tti, va, entry, now)", "ao")],
+     r"current_time_from_expiration_clock\(\); (?P<e>[^}]+?) \}"),
+    ("Lookup", "sync_read_moves_timer", "sync/base_cache.rs", "apply_reads", 0, "expr",
+     [("la", O), ("timestamp", N)], B, "nat", [("entry.last_accessed()", "la")],
+     r"freq\.increment\(hash\); if (?P<e>[^{]+?) \{ entry\.set_last_accessed"),
+    ("Lookup", "unsync_get_filtered", "unsync/cache.rs", "get", 0, "expr",
+     [("wo", B), ("ao", B)], B, "nat",
+     [("Self::is_expired_entry_wo(&self.time_to_live, entry, ts)", "wo"),
+      ("Self::is_expired_entry_ao(&self.time_to_idle, entry, ts)", "ao")],
+     r"\(Some\(entry\), Some\(ts\), deqs\) => \{ if (?P<e>[^{]+?) \{ None"),
+    ("Lookup", "unsync_contains_visible", "unsync/cache.rs", "contains_key", 0, "expr",
+     [("wo", B), ("ao", B)], B, "nat",
+     [("Self::is_expired_entry_wo(&self.time_to_live, entry, ts)", "wo"),
+      ("Self::is_expired_entry_ao(&self.time_to_idle, entry, ts)", "ao")],
+     r"\(Some\(entry\), Some\(ts\)\) => \{ (?P<e>[^}]+?) \}"),
+    ("Lookup", "unsync_iter_filtered", "unsync/cache.rs", "is_expired_entry", 0, "expr",
+     [("wo", B), ("ao", B)], B, "nat",
+     [("Self::is_expired_entry_wo(&self.time_to_live, entry, now)", "wo"),
+      ("Self::is_expired_entry_ao(&self.time_to_idle, entry, now)", "ao")],
+     r"current_time_from_expiration_clock\(\); (?P<e>[^}]+?) \}"),
     # housekeeping trigger
     ("Housekeeper", "should_apply", "common/concurrent/housekeeper.rs", "should_apply", 0, "fn",
      [("ch_len", N), ("ch_flush_point", N), ("syncAfter", N), ("now", N)], B, "nat",
